@@ -135,3 +135,321 @@ func LangSrc(r *rand.Rand, count func(string)) string {
 		return langFrom(r, "/*/ \r\n\r\nab", 10)
 	}
 }
+
+// ---------------------------------------------------------------------------------------
+// Grammar-directed programs (statements, not only expressions/constants): functions and class
+// bodies with every statement form, assignment and multi-assignment to every kind of target
+// (local, member, .member, subscript, range, call, constant, this/super), calls with positional,
+// named, `:name` shortcut, `@args` and block arguments, object/record expressions with named and
+// shortcut members. Mostly valid; `sloppy` targets/arguments are deliberately ill-formed in a
+// grammatical position (the parser must answer with a syntax error).
+
+type langG struct {
+	r     *rand.Rand
+	count func(string)
+}
+
+func (g *langG) pick(ss ...string) string { return ss[g.r.Intn(len(ss))] }
+
+func (g *langG) local() string {
+	return g.pick("x", "y", "a", "b", "i", "it", "args", "_", "_x", "val?", "ok!")
+}
+
+func (g *langG) name() string {
+	return g.pick("x", "y", "a", "b", "Name", "Obj", "Foo_bar", "this", "super", "default", "true", "is", "if", "A", "_")
+}
+
+func (g *langG) literal() string {
+	return g.pick("1", "0", "-7", "12_000", "0x1f", ".5", "5.", "1e3", "1.5e-3", "'s'", "\"t\\n\"", "`r`", "''", "\"\"",
+		"true", "false", "#sym", "#20200101", "#20200101.1234", "#(1, a: 2)", "#{k: 'v'}", "#()", "function () { }", "class { }")
+}
+
+// target: something on the left of an assignment (or in a multi-assignment list)
+func (g *langG) target(d int) string {
+	k := g.r.Intn(12)
+	switch k {
+	case 0, 1, 2, 3:
+		g.count("target.local")
+		return g.local()
+	case 4:
+		g.count("target.member")
+		return g.primary(d-1) + "." + g.pick("c", "Name", "x")
+	case 5:
+		g.count("target.dotmember")
+		return "." + g.pick("x", "Name", "y")
+	case 6:
+		g.count("target.subscript")
+		return g.primary(d-1) + "[" + g.expr(d-1) + "]"
+	case 7:
+		g.count("target.range")
+		return g.local() + "[" + g.pick("1..", "..2", "1..2", "1::2", "::1") + "]"
+	case 8:
+		g.count("target.call")
+		return g.local() + "(" + g.args(d-1) + ")"
+	case 9:
+		g.count("target.constant")
+		return g.literal()
+	case 10:
+		g.count("target.this-super")
+		return g.pick("this", "super", "Global", "true")
+	default:
+		g.count("target.paren")
+		return "(" + g.target(d-1) + ")"
+	}
+}
+
+func (g *langG) primary(d int) string {
+	if d <= 0 {
+		return g.pick(g.local(), g.literal(), "this", ".x", "Global")
+	}
+	switch g.r.Intn(14) {
+	case 0, 1, 2:
+		return g.local()
+	case 3:
+		return g.literal()
+	case 4:
+		return g.primary(d-1) + "." + g.pick("x", "Name", "Method")
+	case 5:
+		return g.primary(d-1) + "[" + g.expr(d-1) + "]"
+	case 6:
+		g.count("expr.call")
+		return g.primary(d-1) + "(" + g.args(d-1) + ")"
+	case 7:
+		return "(" + g.expr(d-1) + ")"
+	case 8:
+		g.count("expr.record")
+		return "[" + g.args(d-1) + "]"
+	case 9:
+		g.count("expr.block")
+		return "{|" + g.pick("", "x", "x, y", "@a") + "| " + g.stmts(d-1, 1) + "}"
+	case 10:
+		g.count("expr.new")
+		return "new " + g.pick("Obj", "x", "this") + g.pick("", "()", "("+g.args(d-1)+")")
+	case 11:
+		return g.pick("super", "this") + "." + g.pick("F", "New") + "(" + g.args(d-1) + ")"
+	case 12:
+		return g.local() + "[" + g.pick("1..", "..2", "1..2", "1::2", "::1") + "]"
+	default:
+		return g.pick(".x", ".Name", ".f("+g.args(d-1)+")")
+	}
+}
+
+func (g *langG) expr(d int) string {
+	if d <= 0 {
+		return g.primary(0)
+	}
+	switch g.r.Intn(12) {
+	case 0, 1, 2:
+		return g.primary(d)
+	case 3, 4:
+		return g.expr(d-1) + " " + g.pick("+", "-", "*", "/", "%", "$", "<", "<=", ">", ">=", "is", "isnt", "==", "!=", "=~", "!~",
+			"and", "or", "&", "|", "^", "<<", ">>") + " " + g.expr(d-1)
+	case 5:
+		return g.pick("not ", "-", "+", "~", "++", "--") + g.primary(d-1)
+	case 6:
+		return g.primary(d-1) + g.pick("++", "--")
+	case 7:
+		g.count("expr.ternary")
+		return g.expr(d-1) + " ? " + g.expr(d-1) + " : " + g.expr(d-1)
+	case 8:
+		g.count("expr.in")
+		return g.primary(d-1) + g.pick(" in ", " not in ") + "(" + g.expr(d-1) + ", " + g.expr(d-1) + ")"
+	case 9:
+		g.count("expr.assign")
+		return g.target(d-1) + " " + g.pick("=", "+=", "-=", "$=", "*=", "/=", "%=", "|=", "&=", "^=", "<<=", ">>=") + " " + g.expr(d-1)
+	case 10:
+		return g.primary(d-1) + "\n." + g.pick("x", "F()")
+	default:
+		return g.primary(d)
+	}
+}
+
+// args: call arguments / record members — positional, named, :name shortcut, @args
+func (g *langG) args(d int) string {
+	if g.r.Intn(8) == 0 {
+		g.count("args.at")
+		return g.pick("@", "@+1 ", "@+1") + g.pick("args", "x", "")
+	}
+	n := g.r.Intn(4)
+	parts := make([]string, 0, n)
+	for i := 0; i < n; i++ {
+		switch g.r.Intn(10) {
+		case 0, 1, 2, 3:
+			g.count("args.positional")
+			parts = append(parts, g.expr(d-1))
+		case 4, 5:
+			g.count("args.named")
+			parts = append(parts, g.pick(g.name(), "'s t'", "5", "#20200101", "''")+": "+g.expr(d-1))
+		case 6:
+			g.count("args.named-true")
+			parts = append(parts, g.name()+":")
+		case 7, 8:
+			g.count("args.shortcut")
+			parts = append(parts, ":"+g.pick(g.local(), g.local(), "Name", "1", "''", "'a'", "this", ""))
+		default:
+			g.count("args.sloppy")
+			parts = append(parts, g.pick(":", ": :", "a: :b", ",", "a b", "@x"))
+		}
+	}
+	return strings.Join(parts, g.pick(", ", ", ", ",", " "))
+}
+
+func (g *langG) stmt(d int) string {
+	if d <= 0 {
+		return g.expr(1)
+	}
+	switch g.r.Intn(20) {
+	case 0, 1:
+		g.count("stmt.assign")
+		return g.target(d) + " = " + g.expr(d-1)
+	case 2, 3, 4:
+		g.count("stmt.multi-assign")
+		n := 2 + g.r.Intn(2)
+		ts := make([]string, n)
+		for i := range ts {
+			ts[i] = g.target(d)
+		}
+		return strings.Join(ts, ", ") + " = " + g.pick(g.local()+"("+g.args(d-1)+")", g.expr(d-1))
+	case 5:
+		g.count("stmt.if")
+		s := "if " + g.expr(d-1) + " " + g.body(d-1)
+		if g.r.Intn(2) == 0 {
+			s += " else " + g.body(d-1)
+		}
+		return s
+	case 6:
+		g.count("stmt.while")
+		return g.pick("while "+g.expr(d-1)+" "+g.body(d-1), "do "+g.body(d-1)+" while "+g.expr(d-1), "forever "+g.body(d-1))
+	case 7:
+		g.count("stmt.for")
+		return g.pick("for "+g.local()+" in "+g.expr(d-1)+" "+g.body(d-1),
+			"for ("+g.local()+" in "+g.expr(d-1)+") "+g.body(d-1),
+			"for "+g.local()+", "+g.local()+" in "+g.expr(d-1)+" "+g.body(d-1),
+			"for "+g.local()+" in .."+g.expr(d-1)+" "+g.body(d-1),
+			"for ("+g.stmt(0)+"; "+g.expr(d-1)+"; "+g.stmt(0)+") "+g.body(d-1),
+			"for (;;) "+g.body(d-1))
+	case 8:
+		g.count("stmt.switch")
+		return "switch " + g.pick(g.expr(d-1), "") + " { case " + g.expr(d-1) + g.pick("", ", "+g.expr(d-1)) + ": " + g.stmts(d-1, 1) +
+			g.pick("", " default: "+g.stmts(d-1, 1)) + " }"
+	case 9:
+		g.count("stmt.try")
+		return "try " + g.body(d-1) + g.pick("", " catch "+g.body(d-1), " catch ("+g.local()+") "+g.body(d-1),
+			" catch ("+g.local()+", 'pat') "+g.body(d-1))
+	case 10, 11:
+		g.count("stmt.return")
+		return g.pick("return", "return "+g.expr(d-1), "return "+g.expr(d-1)+", "+g.expr(d-1), "return throw "+g.expr(d-1))
+	case 12:
+		g.count("stmt.throw")
+		return "throw " + g.expr(d-1)
+	case 13:
+		return g.pick("break", "continue")
+	case 14, 15:
+		g.count("stmt.call")
+		return g.primary(d-1) + "(" + g.args(d) + ")" + g.pick("", " "+"{ "+g.stmts(d-1, 1)+" }")
+	default:
+		g.count("stmt.expr")
+		return g.expr(d)
+	}
+}
+
+func (g *langG) body(d int) string {
+	if g.r.Intn(3) == 0 {
+		return g.stmt(d)
+	}
+	return "{ " + g.stmts(d, 2) + " }"
+}
+
+func (g *langG) stmts(d, max int) string {
+	n := g.r.Intn(max + 1)
+	parts := make([]string, n)
+	for i := range parts {
+		parts[i] = g.stmt(d)
+	}
+	return strings.Join(parts, g.pick("; ", "\n", " ", ";"))
+}
+
+func (g *langG) params() string {
+	return g.pick("", "a", "a, b", "a, b = 1", "@args", ".x", "_a", "a = 'd', b = #(1)", "a, a", "a = b", "@", "a,")
+}
+
+func (g *langG) function(d int) string {
+	return "function (" + g.params() + ") { " + g.stmts(d, 3) + " }"
+}
+
+func (g *langG) class(d int) string {
+	var sb strings.Builder
+	sb.WriteString(g.pick("class", "class : Base", "Base"))
+	sb.WriteString(" { ")
+	for i := g.r.Intn(4); i > 0; i-- {
+		switch g.r.Intn(4) {
+		case 0:
+			sb.WriteString(g.pick("Name", "x", "New", "Default", "'s'", "5") + ": " + g.pick(g.literal(), g.function(d-1)))
+		case 1, 2:
+			sb.WriteString(g.pick("New", "Meth", "meth", "Get_x", "Call") + "(" + g.params() + ") { " + g.stmts(d-1, 2) + " }")
+		default:
+			sb.WriteString(g.name() + g.pick(":", ": ", "()"))
+		}
+		sb.WriteString(g.pick("; ", "\n", " ", ", "))
+	}
+	sb.WriteString("}")
+	return sb.String()
+}
+
+// LangProgram returns one grammar-directed code constant (function or class).
+func LangProgram(r *rand.Rand, count func(string)) string {
+	g := &langG{r, count}
+	if r.Intn(4) == 0 {
+		count("prog.class")
+		return g.class(3)
+	}
+	count("prog.function")
+	return g.function(3)
+}
+
+// LangQuery returns one grammar-directed query whose expressions come from the same
+// expression grammar (the query parser shares the expression parser).
+func LangQuery(r *rand.Rand, count func(string)) string {
+	g := &langG{r, count}
+	count("prog.query")
+	q := g.pick("table", "cus", "(table)", "table join cus", "cus leftjoin by(cnum) task")
+	for i := 1 + r.Intn(3); i > 0; i-- {
+		switch r.Intn(8) {
+		case 0, 1, 2:
+			q += " where " + g.expr(2)
+		case 3, 4:
+			q += " extend " + g.local() + " = " + g.expr(2) + g.pick("", ", z = "+g.expr(1), ", y")
+		case 5:
+			q += " summarize " + g.pick("count", "a, total b", "max c by d", "n = count, list a")
+		case 6:
+			q += g.pick(" project a, b", " remove a", " rename a to aa", " sort a", " sort reverse a, b")
+		default:
+			q += g.pick(" union ", " minus ", " intersect ", " times ", " join by(a) ") + g.pick("table2", "(cus where "+g.expr(1)+")")
+		}
+	}
+	return q
+}
+
+// LangCuts returns the inputs derived from one valid-ish program: the program itself, every
+// proper byte prefix of it (hence every token boundary, in particular right after `:` `(` `,`
+// `[`), some prefixes followed by white space / newline, and variants in which one word is
+// replaced by an empty string literal (an empty-text token in an identifier position).
+func LangCuts(r *rand.Rand, s string, count func(string)) []string {
+	out := make([]string, 0, len(s)+8)
+	out = append(out, s)
+	for k := 0; k < len(s); k++ {
+		out = append(out, s[:k])
+		if k > 0 && strings.IndexByte(":(,[{.=@", s[k-1]) >= 0 && r.Intn(2) == 0 {
+			out = append(out, s[:k]+[]string{" ", "\n", " \n ", "''", " ''", "\"\")"}[r.Intn(6)])
+		}
+	}
+	count("cuts.programs")
+	words := strings.Fields(s)
+	for k := 0; k < 3 && len(words) > 0; k++ {
+		w := append([]string{}, words...)
+		w[r.Intn(len(w))] = []string{"''", "\"\"", "``"}[r.Intn(3)]
+		out = append(out, strings.Join(w, " "))
+		count("cuts.empty-string-token")
+	}
+	return out
+}
